@@ -478,11 +478,19 @@ func (c *C11) Init(tier string, worker, nworkers int, seed uint64) error {
 	if c.d != nil && c.dw == worker {
 		return nil
 	}
-	mode, omode := rollup.Insertion, rollup.Deletion
-	if worker%2 == 1 {
-		mode, omode = omode, mode
+	// one system per worker (a Groth16 setup each); the pool spans the corners of the dimension space: a
+	// deletion batch larger than the tree (padding entries make that a legitimate system), the largest
+	// depths both circuits accept, a batch that is not a power of two; depth != batch, so a swap is visible
+	pool := []dims{
+		{rollup.Insertion, 3, 2}, {rollup.Deletion, 2, 5}, {rollup.Insertion, 32, 1}, {rollup.Deletion, 4, 2},
+		{rollup.Insertion, 5, 7}, {rollup.Deletion, 31, 2}, {rollup.Insertion, 4, 1}, {rollup.Deletion, 1, 3},
 	}
-	depth, batch := 3+worker%3, 1+worker%2 // depth != batch, so a swap is visible
+	pick := pool[(worker+int(seed%uint64(len(pool)))+len(pool)-1)%len(pool)]
+	mode, depth, batch := pick.mode, pick.depth, pick.batch
+	omode := rollup.Deletion
+	if mode == rollup.Deletion {
+		omode = rollup.Insertion
+	}
 	d, err := buildDiskSys(mode, depth, batch, uint64(worker)+seed*1000)
 	if err != nil {
 		return err
